@@ -3,10 +3,10 @@
   decoded pre-state records and one operation; the output line is the result code and the
   post-state records in canonical (sorted) order.
 
-    allege  h= rep= acc= id= bh= sig= fee=   <q= c= t= s= v=>          -> res=<code> <q= t= s= v=>
-    vote    voter= id= ch= sig= fee=          <q= c= t= s= v=>          -> res=<code> <q= t= s= v=>
-    release h= now= days= val= sig= fee=        <q= c= t= s= v=>          -> res=<code> <q= t= s= v=>
-    guard   kind= val= sa=                    <q= c= s= r=>            -> guard=<frozen|openRequest|pass>
+    allege  h= rep= acc= id= bh= sig= fee=   <q= t= s= v=>             -> res=<code> <q= t= s= v=>
+    vote    voter= id= ch= sig= fee=          <q= t= s= v=>             -> res=<code> <q= t= s= v=>
+    release h= now= days= val= sig= fee=        <q= t= s= v=>             -> res=<code> <q= t= s= v=>
+    guard   kind= val= sa=                    <q= s= r=>               -> guard=<frozen|openRequest|pass>
     begin   h= now= diff= minv= cv=           <r= q= t= s= v=>          -> begun <s=>
     elect   h= minself= top= pop=             <z= v=>                   -> active=<n> el=<addrs> <v=>
     tally   h= now= active= o= pf=            <r= k= q= t= s= v= T= E= D= B= U=> -> tallied <q= t= s= T= E= D= B= U=>
@@ -59,7 +59,6 @@ def parseState (toks : List (String × String)) : Option (State × List (Addr ×
     | "q", [id, rep, acc, bh, status, votes] =>
       let vs ← parseVotes votes
       st := { st with reqs := st.reqs ++ [(unDash id, ⟨rep, acc, ← bh.toInt?, ← status.toInt?, vs⟩)] }
-    | "c", [id] => st := { st with committed := st.committed ++ [unDash id] }
     | "t", [id] => st := { st with tracker := st.tracker ++ [unDash id] }
     | "s", [a, status, fh, fat, rh, rat] =>
       let ra ← if rat == "~" then some none else rat.toInt?.map some
